@@ -37,9 +37,16 @@ SEEDS = ["http://a", "http://a/", "http://example.com:80/a?q#f", "http://u:p@exa
          "http://a/%2F", "http://a//", "http://a:80", "https://a:443/", "file:///x", "?q", "#f", "http://é.com/é"]
 
 
+# URLs whose RAW components differ but whose DECODED forms coincide (or vice versa): equality and ordering are defined on the
+# raw parts, so within such a family everything must still be coherent
+SPELLINGS = [["http://a/x/y", "http://a/x%2Fy", "http://a/x%2fy", "http://a/x%252Fy"], ["http://a/x+y", "http://a/x%2By", "http://a/x y"],
+             ["http://a/?x=1&y=2", "http://a/?x=1%26y=2", "http://a/?x=1;y=2"], ["http://a/#f/g", "http://a/#f%2Fg"],
+             ["http://u:p@a/", "http://u%3Ap@a/", "http://u:p%40@a/"], ["/x/y", "/x%2Fy", "x/y", "x%2Fy"]]
+
+
 def gen(params):
     rnd = random.Random(params.get("seed", 0))
-    fams = [variants(rnd, s) for s in SEEDS]
+    fams = [variants(rnd, s) for s in SEEDS] + [[ctor(s) for s in fam] + [ctor(s, True) for s in fam] for fam in SPELLINGS]
     for _ in range(params.get("nfam", 20)):
         fams.append(variants(rnd, grid.sample(rnd, ipvfuture=False)))
     for fam in fams:
